@@ -5,6 +5,7 @@ answers every missing input from the policy, so whatever lines the scenario reac
 they ask for; the answers actually given are recorded and ARE the concrete input of the scenario
 (they replay as an input file).  All randomness derives from the scenario's seed string.
 """
+import re
 import configparser
 import hashlib
 import io
@@ -63,8 +64,21 @@ class Policy:
         self.max_count = max_count
         self.scale = scale
         self.text = text
+        self.subcent = False        # C12: money answers carry a fraction of a cent (payroll exports do)
 
     def answer(self, inp):
+        ans = self._answer(inp)
+        if self.subcent and ans is not None:
+            from habutax import inputs as hi
+            if isinstance(inp, hi.FloatInput) and inp.name() not in self.fixed and inp.base_name() not in self.fixed:
+                d = pick(self.seed, inp.name() + '/subcent', ['4', '9', '5', '1', '49', '51'])
+                if re.fullmatch(r'\d+\.\d\d', ans):
+                    ans = ans + d
+                elif re.fullmatch(r'[1-9]\d*', ans):
+                    ans = ans + '.00' + d
+        return ans
+
+    def _answer(self, inp):
         from habutax import inputs as hi
         name = inp.name()
         if name in self.fixed:
